@@ -320,7 +320,7 @@ fn main() {
                 continue;
             }
         };
-        let ex = qf::explore(&model, true, u64::MAX, n_threads());
+        let ex = qf::explore(&model, true, 2_000_000, n_threads());
         if !ex.viols.is_empty() {
             continue; // C13's business; the pair sweep needs a sound reachable set
         }
